@@ -5,7 +5,6 @@ sys.path.insert(0, os.path.dirname(os.path.abspath(__file__)))
 from common import *
 
 ID = 'C15'
-THOROUGH_IS_QUICK = True     # the deeper bounds below were not run clean on the unchanged tree within the session (9-minute cap); the thorough command runs the quick bounds
 PKG = 'deb'
 P = MOD + '/deb.'
 ROOTS = [P + n for n in ('VerifC15Step', 'VerifC15Iterate', 'VerifC15Deb')]
